@@ -66,6 +66,32 @@ def feHex (F : FP) (x : Nat) : String := toHex (F.toBytesLe x)
 def ordStr : Ordering → String
   | .lt => "lt" | .eq => "eq" | .gt => "gt"
 
+/-- `AffineRepr::from_random_bytes` (ark_curve/element.rs, after repair): arkworks' `get_point_from_y_unchecked`
+on `y = from_le_bytes_mod_order(bytes)` with the default (non-negative) flag, then doubled.  `none` = `None`. -/
+def fromRandomBytes (bytes : List Nat) : Option Ext :=
+  let y := fqP.fromLeBytesModOrder bytes
+  let y2 := fsq q y
+  let num := fsub q 1 y2
+  let den := fsub q cA (fmul q y2 cD)
+  if den == 0 then none
+  else
+    let x2 := fmul q (finv q den) num
+    match fqSqrt x2 with
+    | some (some x) =>
+      let nx := fneg q x
+      let x' := if x ≤ nx then x else nx
+      some (Ext.doubleRef (Ext.ofAffine (x', y)))
+    | _ => none
+
+/-- the validity oracle of C06, evaluated on the model -/
+def validExt (B : Build) (e : Ext) : Bool :=
+  let rt := match e.encode B.sr with
+    | some bs => (match decodeSlice B.sr bs with | .ok e' => e'.eq e | _ => false)
+    | none => false
+  let rp := Ext.ladderLsbAux B.add B.dbl (limbsBits (toLimbs 64 r 4)) Ext.identity e
+  let (x, y) := e.affine
+  rt && rp.isIdentity && C17.onCurve x y
+
 /-! ### group programs -/
 
 def getReg (regs : List (String × Ext)) (r : String) : Option Ext := (regs.find? (·.1 == r)).map (·.2)
@@ -104,11 +130,24 @@ def execAssign (B : Build) (regs : List (String × Ext)) (dst op : String) (args
       | some e1, some e2 => put (B.add e1 e2)
       | _, _ => .error "panic"
     | _, _ => .error "bad-op"
+  | "frb", [h] =>
+    match parseHex h with
+    | none => .error "bad-op"
+    | some bs => match fromRandomBytes bs with | some e => put e | none => .error "none"
   | "add", [a, b] => do put (B.add (← reg a) (← reg b))
   | "sub", [a, b] => do put (B.add (← reg a) (Ext.neg (← reg b)))
   | "neg", [a] => do put (Ext.neg (← reg a))
   | "dbl", [a] => do put (B.dbl (← reg a))
   | "aff", [a] => do put (Ext.ofAffine (← reg a).affine)
+  | "redec", [a] => do
+    let e ← reg a
+    match e.encode B.sr with
+    | none => .error "panic"
+    | some bs => match decodeSlice B.sr bs with
+      | .ok e' => put e'
+      | .error .encoding => .error "err-enc"
+      | .error .length => .error "err-len"
+      | .error .panic => .error "panic"
   | "mul", [a, k] =>
     match scalarOfHex k with
     | none => .error "bad-op"
@@ -117,7 +156,7 @@ def execAssign (B : Build) (regs : List (String × Ext)) (dst op : String) (args
       put (if B.name == "min" then Ext.ladderLsbAux B.add B.dbl (limbsBits limbs) Ext.identity e
            else Ext.ladderMsbAux B.add B.dbl e ((limbsBits limbs).reverse.dropWhile (· == false)) Ext.identity)
   | "mulbig", [a, ls] =>
-    match parseLimbs ls with
+    match parseLimbs (ls.replace "+" ",") with
     | none => .error "bad-op"
     | some limbs => do
       let e ← reg a
@@ -146,6 +185,10 @@ def execOutput (B : Build) (regs : List (String × Ext)) (op : String) (args : L
     match reg a with
     | none => "badreg"
     | some e => match e.encode B.sr with | some bs => toHex bs | none => "panic"
+  | "specenc", [a] =>
+    match reg a with
+    | none => "badreg"
+    | some e => match encodeSpecField e.affine with | some s => toHex (toLeBytes s 32) | none => "spec-undefined"
   | "eq", [a, b] =>
     match reg a, reg b with
     | some x, some y => if x.eq y then "1" else "0"
@@ -153,6 +196,10 @@ def execOutput (B : Build) (regs : List (String × Ext)) (op : String) (args : L
   | "isid", [a] =>
     match reg a with
     | some x => if x.isIdentity then "1" else "0"
+    | none => "badreg"
+  | "valid", [a] =>
+    match reg a with
+    | some x => if validExt B x then "valid" else "INVALID"
     | none => "badreg"
   | "heq", [a, b] =>
     -- hash equality: after repair the hash input is the encoding
@@ -171,7 +218,7 @@ def execProg (B : Build) (prog : String) : String := Id.run do
     | [dst, rhs] =>
       let (op, args) := match rhs.splitOn ":" with
         | [o] => (o, ([] : List String))
-        | [o, a] => (o, a.splitOn ",")
+        | [o, a] => (o, if a.isEmpty then [] else a.splitOn ",")
         | _ => ("bad", [])
       match execAssign B regs dst op args with
       | .ok r => regs := r
@@ -207,7 +254,7 @@ def execField (B : Build) (fld op : String) (args : List String) : String :=
     | "pow", [a, ls] => match fe a, parseLimbs ls with
         | some x, some l => out (F.powLimbs x l) | _, _ => "bad-op"
     | "power", [a, ls] => match fe a, parseLimbs ls with
-        | some x, some l => if l.isEmpty then "panic" else out (F.powLimbs x l) | _, _ => "bad-op"
+        | some x, some l => out (F.powLimbs x l) | _, _ => "bad-op"
     | "sum", [as] => match (if as == "-" then some [] else (as.splitOn ",").mapM fe) with
         | some xs => out (F.sum xs) | none => "bad-op"
     | "product", [as] => match (if as == "-" then some [] else (as.splitOn ",").mapM fe) with
@@ -269,13 +316,20 @@ def execField (B : Build) (fld op : String) (args : List String) : String :=
 def execSpec (op : String) (args : List String) : String :=
   match op, args with
   | "dec", [h] => match parseHex h with
-      | some bs => (match decodeSpec bs with
-        | some xy => (match encodeSpecField xy with | some s => "ok " ++ toHex (toLeBytes s 32) | none => "ok ?")
-        | none => "err")
+      | some bs =>
+        if bs.length != 32 then "err-len" else
+        (match decodeSpec bs with
+        | some xy => (match encodeSpecField xy with | some s => toHex (toLeBytes s 32) | none => "spec-undefined")
+        | none => "err-enc")
       | none => "bad-op"
   | "ell", [h] => match parseFe fqP h with
       | some r0 => (match elligatorSpec ZETA r0 with
-        | some xy => (match encodeSpecField xy with | some s => toHex (toLeBytes s 32) | none => "?")
+        | some xy => (match encodeSpecField xy with | some s => toHex (toLeBytes s 32) | none => "spec-undefined")
+        | none => "none")
+      | none => "bad-op"
+  | "ell3", [h] => match parseFe fqP h with
+      | some r0 => (match elligatorSpec ZETA r0 with
+        | some xy => (match encodeSpecField xy with | some s => toHex (toLeBytes s 32) ++ " 1 1" | none => "spec-undefined")
         | none => "none")
       | none => "bad-op"
   | _, _ => "bad-op"
